@@ -128,6 +128,35 @@ def c07_cases(rng, thorough):
                 want[off + 12:off + 12 + len(ep) + len(ev)] = ep + ev
                 expect[idx] = ["d " + hexs(want), "v %d" % len(ep)]
         # reserved address modes: the path writer must write nothing
+    # systematic: (a) every variable-length datatype with an EMPTY value and the interoperable path
+    # EMPTY, on an all-ones background (a stale length prefix must be overwritten); (b) every array
+    # datatype with two elements behind interoperable paths of every length 0..8 (every alignment of
+    # the first element)
+    extra = []
+    for code in BLOBS + list(ELEMS):
+        v0 = ("b", b"") if code in BLOBS else ("e", ELEMS[code], [])
+        extra.append((0, code, ("path", b""), v0, "ones"))
+        extra.append((0, code, ("path", b"abc"), v0, "ones"))
+        extra.append((1, code, ("sid", 7), v0, "ones"))
+    extra.append((0, 4, ("path", b""), ("s", 0x01020304), "ones"))
+    for code in ELEMS:
+        k = ELEMS[code]
+        for plen in range(0, 9):
+            vals = [0x3fc00000, 0xc0490fdb] if k == 4 else [interesting_scalar(rng, k), interesting_scalar(rng, k)]
+            extra.append((0, code, ("path", structured_bytes(rng, plen)), ("e", k, vals), "random"))
+    for mode, code, p, v, bgk in extra:
+        ep, ev = enc_path(p), enc_value(code, v)
+        size = 12 + len(ep) + len(ev) + 3
+        hdr = vss_header(rng, mode, code)
+        bg = bytearray([0xff] * size) if bgk == "ones" else bytearray(rng.getrandbits(8) for _ in range(size))
+        bg[0:12] = hdr
+        pl = "vss_setpath a 0 %d %s %d" % ((len(p[1]), hexs(p[1]), 0) if p[0] == "path" else (0, "-", p[1]))
+        ops = ["buf a " + hexs(bg), pl, setdata_line(0, v), "dump a", "vss_calc a 0"]
+        idx = len(cs.cases)
+        cs.add(ops, {"what": "encode", "mode": mode, "code": code, "class": "systematic-" + v[0], "len": len(ev)})
+        want = bytearray(bg)
+        want[12:12 + len(ep) + len(ev)] = ep + ev
+        expect[idx] = ["d " + hexs(want), "v %d" % len(ep)]
     for p in long_paths(rng, thorough):       # the longest paths the 16-bit prefix can describe
         code = 4
         v = ("s", 0xdeadbeef)
